@@ -701,7 +701,11 @@ class PhrasePlugin(Plugin):
             sc = self.textstartchar
             if parser.schema and fieldname in parser.schema:
                 field = parser.schema[fieldname]
-                if field.analyzer:
+                if not field.format:
+                    # The field is stored but not indexed
+                    return attach(query.error_query("Field %r is not indexed"
+                                                    % fieldname), self)
+                elif field.analyzer:
                     # We have a field with an analyzer, so use it to parse
                     # the phrase into tokens
                     tokens = field.tokenize(text, mode="query", chars=True)
